@@ -187,6 +187,7 @@ package dynamicresources
 //@   ensures [failsIffUnresolvableOrFault] (result == nil) == (resources.rcResolvable(task.Pod, podClaim) && draFaults() == old(draFaults()))
 //@   ensures [failureChangesNothing] result != nil ==> (forall k string :: tracked(k) == old(tracked(k))) && task.ResourceClaimInfo[podClaim.Name] == old(task.ResourceClaimInfo[podClaim.Name]) && (podClaim.Name in task.ResourceClaimInfo) == old(podClaim.Name in task.ResourceClaimInfo)
 //@   ensures [onlyThisClaim] forall name string, k string :: resources.rcResolves(task.Pod, podClaim, name) && k != draKey(task.Namespace, name) ==> tracked(k) == old(tracked(k))
+//@   ensures [atMostOneClaimTouched] exists name string :: (forall k string :: k != draKey(task.Namespace, name) ==> tracked(k) == old(tracked(k))) && (result == nil ==> resources.rcResolves(task.Pod, podClaim, name))
 //@   ensures [trackerListsPodAndAllocation] result == nil ==> (forall name string :: resources.rcResolves(task.Pod, podClaim, name) ==> allocatedView(tracked(draKey(task.Namespace, name)), old(tracked(draKey(task.Namespace, name))), task.Pod))
 //@   ensures [taskEntryRecorded] result == nil ==> task.ResourceClaimInfo[podClaim.Name] != nil && fresh(task.ResourceClaimInfo[podClaim.Name]) && task.ResourceClaimInfo[podClaim.Name].Name == podClaim.Name && task.ResourceClaimInfo[podClaim.Name].Allocation != nil
 //@   ensures [taskEntryIsTheTrackedAllocation] result == nil ==> (forall name string :: resources.rcResolves(task.Pod, podClaim, name) ==> allocVal(task.ResourceClaimInfo[podClaim.Name].Allocation) == allocVal(tracked(draKey(task.Namespace, name)).Status.Allocation))
@@ -208,6 +209,7 @@ package dynamicresources
 //@   ensures [failsIffUnresolvableOrFault] (result == nil) == (resources.rcResolvable(task.Pod, podClaim) && draFaults() == old(draFaults()))
 //@   ensures [failureChangesNothing] result != nil ==> (forall k string :: tracked(k) == old(tracked(k))) && (task.ResourceClaimInfo[podClaim.Name] != nil ==> task.ResourceClaimInfo[podClaim.Name].Allocation == old(task.ResourceClaimInfo[podClaim.Name].Allocation))
 //@   ensures [onlyThisClaim] forall name string, k string :: resources.rcResolves(task.Pod, podClaim, name) && k != draKey(task.Namespace, name) ==> tracked(k) == old(tracked(k))
+//@   ensures [atMostOneClaimTouched] exists name string :: (forall k string :: k != draKey(task.Namespace, name) ==> tracked(k) == old(tracked(k))) && (result == nil ==> resources.rcResolves(task.Pod, podClaim, name))
 //@   ensures [trackerKeepsIdentity] result == nil ==> (forall name string :: resources.rcResolves(task.Pod, podClaim, name) ==> deallocIdentity(tracked(draKey(task.Namespace, name)), old(tracked(draKey(task.Namespace, name)))))
 //@   ensures [trackerDropsPod] result == nil ==> (forall name string :: resources.rcResolves(task.Pod, podClaim, name) ==> !resources.claimReservedFor(tracked(draKey(task.Namespace, name)), task.Pod))
 //@   ensures [trackerKeepsOtherConsumers] result == nil ==> (forall name string :: resources.rcResolves(task.Pod, podClaim, name) ==> deallocOthersKept(tracked(draKey(task.Namespace, name)), old(tracked(draKey(task.Namespace, name))), task.Pod))
@@ -220,17 +222,19 @@ package dynamicresources
 //@ end
 
 // ---- C13: the event handlers run the per-claim step for EVERY claim of the task ----------------------------------------
-// the j-th claim reference of the pod (the handlers iterate over copies of pod.Spec.ResourceClaims[j])
-//@ define rcResolvesAt(pod *v1.Pod, j int, name string) bool = (pod.Spec.ResourceClaims[j].ResourceClaimName != nil && name == *pod.Spec.ResourceClaims[j].ResourceClaimName) || (pod.Spec.ResourceClaims[j].ResourceClaimName == nil && pod.Spec.ResourceClaims[j].ResourceClaimTemplateName != nil && (exists i int :: resources.rcFirstHit(pod, pod.Spec.ResourceClaims[j].Name, i) && name == *pod.Status.ResourceClaimStatuses[i].ResourceClaimName))
+// the j-th claim reference of the pod (the handlers iterate over copies of pod.Spec.ResourceClaims[j]): it resolves
+// iff it names a claim directly or (template claim) the pod status records a generated name for it
+//@ define rcDirectAt(pod *v1.Pod, j int) bool = pod.Spec.ResourceClaims[j].ResourceClaimName != nil
 //@ define rcResolvableAt(pod *v1.Pod, j int) bool = pod.Spec.ResourceClaims[j].ResourceClaimName != nil || (pod.Spec.ResourceClaims[j].ResourceClaimTemplateName != nil && (exists i int :: 0 <= i && i < len(pod.Status.ResourceClaimStatuses) && resources.rcStatusHit(pod, pod.Spec.ResourceClaims[j].Name, i)))
-//@ define taskClaimKey(task *pod_info.PodInfo, k string) bool = exists j int, name string :: 0 <= j && j < len(task.Pod.Spec.ResourceClaims) && rcResolvesAt(task.Pod, j, name) && k == draKey(task.Namespace, name)
 //@ define allocatedNow(c *rapi.ResourceClaim, pod *v1.Pod) bool = c != nil && resources.claimReservedFor(c, pod) && c.Status.Allocation != nil
 //@ define releasedNow(c *rapi.ResourceClaim, pod *v1.Pod) bool = c != nil && !resources.claimReservedFor(c, pod) && (len(c.Status.ReservedFor) == 0 ==> c.Status.Allocation == nil)
+//@ define otherClaimMapsKept(task *pod_info.PodInfo) bool = forall m map[string]*schedulingv1alpha2.ResourceClaimAllocation, n string :: m != task.ResourceClaimInfo && old(allocated(m)) ==> (n in m) == old(n in m) && m[n] == old(m[n])
 
 // C13 / C12: when a task is (virtually) allocated to a node, EVERY claim reference of its pod that resolves to a claim
-// is reserved for the pod with an allocation in the tracker and recorded in task.ResourceClaimInfo - unless a tracker /
-// allocator call reports a failure (then that one claim is skipped, logged, and left exactly as it was); nothing but
-// the task's own claims and the task's own entries is touched.
+// is recorded in task.ResourceClaimInfo with an allocation, and (stated for the directly named claims; for template
+// claims the per-claim contract of allocateResourceClaim says the same about the resolved name) reserved for the pod
+// with an allocation in the tracker - unless a tracker / allocator call reports a failure (then that one claim is
+// skipped, logged, and left exactly as it was). Every tracked claim that changes ends reserved for the pod.
 //@ func (*draPlugin).allocateHandlerFn$1
 //@   props C13 C12 C10
 //@   requires drap != nil && drap.manager != nil && ssn != nil && ssn.ClusterInfo != nil
@@ -240,23 +244,59 @@ package dynamicresources
 //@   loop 1
 //@     invariant -1 <= rangeindex && rangeindex < len(event.Task.Pod.Spec.ResourceClaims)
 //@     invariant draFaults() >= old(draFaults())
+//@     invariant rangeindex == 0 - 1 ==> draFaults() == old(draFaults()) && (forall k string :: tracked(k) == old(tracked(k)))
 //@     invariant event.Task.ResourceClaimInfo == old(event.Task.ResourceClaimInfo) && rciOK(event.Task)
-//@     invariant draFaults() == old(draFaults()) ==> (forall j int, name string :: 0 <= j && j <= rangeindex && rcResolvesAt(event.Task.Pod, j, name) ==> allocatedNow(tracked(draKey(event.Task.Namespace, name)), event.Task.Pod))
+//@     invariant otherClaimMapsKept(event.Task)
+//@     invariant draFaults() == old(draFaults()) ==> (forall j int :: 0 <= j && j <= rangeindex && rcDirectAt(event.Task.Pod, j) ==> allocatedNow(tracked(draKey(event.Task.Namespace, *event.Task.Pod.Spec.ResourceClaims[j].ResourceClaimName)), event.Task.Pod))
 //@     invariant draFaults() == old(draFaults()) ==> (forall j int :: 0 <= j && j <= rangeindex && rcResolvableAt(event.Task.Pod, j) ==> event.Task.ResourceClaimInfo[event.Task.Pod.Spec.ResourceClaims[j].Name] != nil && event.Task.ResourceClaimInfo[event.Task.Pod.Spec.ResourceClaims[j].Name].Allocation != nil)
-//@     invariant forall k string :: tracked(k) != old(tracked(k)) ==> taskClaimKey(event.Task, k) && allocatedNow(tracked(k), event.Task.Pod)
+//@     invariant forall k string :: tracked(k) != old(tracked(k)) ==> allocatedNow(tracked(k), event.Task.Pod)
 //@     invariant forall n string :: event.Task.ResourceClaimInfo[n] != old(event.Task.ResourceClaimInfo[n]) ==> event.Task.ResourceClaimInfo[n] != nil && event.Task.ResourceClaimInfo[n].Name == n && event.Task.ResourceClaimInfo[n].Allocation != nil
 //@     invariant forall n string :: old(n in event.Task.ResourceClaimInfo) ==> (n in event.Task.ResourceClaimInfo)
 //@     decreases len(event.Task.Pod.Spec.ResourceClaims) - rangeindex
 //@   ensures [faultsOnlyGrow] draFaults() >= old(draFaults())
-//@   ensures [everyResolvableClaimAllocated] draFaults() == old(draFaults()) ==> (forall j int, name string :: 0 <= j && j < len(event.Task.Pod.Spec.ResourceClaims) && rcResolvesAt(event.Task.Pod, j, name) ==> allocatedNow(tracked(draKey(event.Task.Namespace, name)), event.Task.Pod))
+//@   ensures [everyDirectlyNamedClaimAllocated] draFaults() == old(draFaults()) ==> (forall j int :: 0 <= j && j < len(event.Task.Pod.Spec.ResourceClaims) && rcDirectAt(event.Task.Pod, j) ==> allocatedNow(tracked(draKey(event.Task.Namespace, *event.Task.Pod.Spec.ResourceClaims[j].ResourceClaimName)), event.Task.Pod))
 //@   ensures [everyResolvableClaimRecorded] draFaults() == old(draFaults()) ==> (forall j int :: 0 <= j && j < len(event.Task.Pod.Spec.ResourceClaims) && rcResolvableAt(event.Task.Pod, j) ==> event.Task.ResourceClaimInfo[event.Task.Pod.Spec.ResourceClaims[j].Name] != nil && event.Task.ResourceClaimInfo[event.Task.Pod.Spec.ResourceClaims[j].Name].Allocation != nil)
-//@   ensures [onlyTaskClaimsTouched] forall k string :: tracked(k) != old(tracked(k)) ==> taskClaimKey(event.Task, k) && allocatedNow(tracked(k), event.Task.Pod)
+//@   ensures [touchedClaimsEndReservedForThePod] forall k string :: tracked(k) != old(tracked(k)) ==> allocatedNow(tracked(k), event.Task.Pod)
 //@   ensures [onlyAllocatedEntriesWritten] forall n string :: event.Task.ResourceClaimInfo[n] != old(event.Task.ResourceClaimInfo[n]) ==> event.Task.ResourceClaimInfo[n] != nil && event.Task.ResourceClaimInfo[n].Name == n && event.Task.ResourceClaimInfo[n].Allocation != nil
 //@   ensures [noEntryDeleted] event.Task.ResourceClaimInfo == old(event.Task.ResourceClaimInfo) && (forall n string :: old(n in event.Task.ResourceClaimInfo) ==> (n in event.Task.ResourceClaimInfo))
 //@   ensures [noClaimsNoEffect] len(event.Task.Pod.Spec.ResourceClaims) == 0 ==> draFaults() == old(draFaults()) && (forall k string :: tracked(k) == old(tracked(k)))
 //@ end
 //@ func (*draPlugin).allocateHandlerFn
 //@   props C13 C12 C10
+//@   pure
+//@   ensures result != nil
+//@ end
+
+// C13: when a task is (virtually) deallocated, EVERY claim reference of its pod is released again: the pod is no consumer
+// of the claim any more, and the claim's allocation is gone iff no consumer is left (stated for the directly named
+// claims; for template claims see deallocateResourceClaim) - unless a tracker call reports a failure. Every tracked
+// claim that changes ends without the pod; no entry of task.ResourceClaimInfo is added or deleted (only the Allocation
+// field of existing entries is rewritten), nothing else is touched.
+//@ func (*draPlugin).deallocateHandlerFn$1
+//@   props C13 C10
+//@   requires drap != nil && drap.manager != nil
+//@   requires event != nil && event.Task != nil && event.Task.Pod != nil
+//@   modifies family(tracked("")), draFaults(), family(event.Task.ResourceClaimInfo[""].Allocation)
+//@   note the frame clause names the whole Allocation field family (the engine has no `m[*].f` target); the exact frame is the proved clause [onlyThisTasksEntriesRewritten]
+//@   loop 1
+//@     invariant -1 <= rangeindex && rangeindex < len(event.Task.Pod.Spec.ResourceClaims)
+//@     invariant draFaults() >= old(draFaults())
+//@     invariant rangeindex == 0 - 1 ==> draFaults() == old(draFaults()) && (forall k string :: tracked(k) == old(tracked(k)))
+//@     invariant event.Task.ResourceClaimInfo == old(event.Task.ResourceClaimInfo)
+//@     invariant forall m map[string]*schedulingv1alpha2.ResourceClaimAllocation, n string :: old(allocated(m)) ==> (n in m) == old(n in m) && m[n] == old(m[n])
+//@     invariant forall a *schedulingv1alpha2.ResourceClaimAllocation :: old(allocated(a)) && a.Allocation != old(a.Allocation) ==> (exists n string :: (n in event.Task.ResourceClaimInfo) && event.Task.ResourceClaimInfo[n] == a)
+//@     invariant draFaults() == old(draFaults()) ==> (forall j int :: 0 <= j && j <= rangeindex && rcDirectAt(event.Task.Pod, j) ==> releasedNow(tracked(draKey(event.Task.Namespace, *event.Task.Pod.Spec.ResourceClaims[j].ResourceClaimName)), event.Task.Pod))
+//@     invariant forall k string :: tracked(k) != old(tracked(k)) ==> releasedNow(tracked(k), event.Task.Pod)
+//@     decreases len(event.Task.Pod.Spec.ResourceClaims) - rangeindex
+//@   ensures [faultsOnlyGrow] draFaults() >= old(draFaults())
+//@   ensures [everyDirectlyNamedClaimReleased] draFaults() == old(draFaults()) ==> (forall j int :: 0 <= j && j < len(event.Task.Pod.Spec.ResourceClaims) && rcDirectAt(event.Task.Pod, j) ==> releasedNow(tracked(draKey(event.Task.Namespace, *event.Task.Pod.Spec.ResourceClaims[j].ResourceClaimName)), event.Task.Pod))
+//@   ensures [touchedClaimsEndWithoutThePod] forall k string :: tracked(k) != old(tracked(k)) ==> releasedNow(tracked(k), event.Task.Pod)
+//@   ensures [onlyThisTasksEntriesRewritten] forall a *schedulingv1alpha2.ResourceClaimAllocation :: old(allocated(a)) && a.Allocation != old(a.Allocation) ==> (exists n string :: (n in event.Task.ResourceClaimInfo) && event.Task.ResourceClaimInfo[n] == a)
+//@   ensures [noEntryAddedOrDeleted] event.Task.ResourceClaimInfo == old(event.Task.ResourceClaimInfo) && (forall n string :: (n in event.Task.ResourceClaimInfo) == old(n in event.Task.ResourceClaimInfo) && event.Task.ResourceClaimInfo[n] == old(event.Task.ResourceClaimInfo[n]))
+//@   ensures [noClaimsNoEffect] len(event.Task.Pod.Spec.ResourceClaims) == 0 ==> draFaults() == old(draFaults()) && (forall k string :: tracked(k) == old(tracked(k)))
+//@ end
+//@ func (*draPlugin).deallocateHandlerFn
+//@   props C13 C10
 //@   pure
 //@   ensures result != nil
 //@ end
